@@ -196,10 +196,19 @@ impl Backend {
         // Each dependency is an outgoing call
         for dep_name in &definition.dependencies {
             // Resolve the dependency to its definition
-            if let Some(dep_def) = self
-                .fixture_db
-                .resolve_fixture_for_file(&file_path, dep_name)
-            {
+            // Same resolution as go-to-definition from the parameter: a dependency on the
+            // fixture's own name denotes the definition it overrides, never itself.
+            let dep_def = if dep_name == &definition.name {
+                self.fixture_db.find_closest_definition_excluding(
+                    &file_path,
+                    dep_name,
+                    Some(definition),
+                )
+            } else {
+                self.fixture_db
+                    .find_closest_definition(&file_path, dep_name)
+            };
+            if let Some(dep_def) = dep_def {
                 let Some(dep_uri) = self.path_to_uri(&dep_def.file_path) else {
                     continue;
                 };
